@@ -44,8 +44,9 @@ NAMES = {'ud': {'m1': 'udparsers.x6666.x6666', 'm2': 'udparsers.y6666.y6666', 'a
          'co': {'m1': 'calloutparsers.xcallouts.xcallouts', 'm2': 'calloutparsers.ycallouts.ycallouts',
                 'a1': 'calloutparsers.qcallouts.qcallouts'},
          'osrc': {'m1': 'srcparsers.oaa00.oaa00', 'm2': 'srcparsers.bsrc.bsrc', 'a1': 'srcparsers.occ00.occ00'}}
-BEHSEL = {'ok': 0, 'nondict': 1, 'none': 2, 'raise': 3, 'importerror': 4}
-PROC = {'ok': 'FIX0001', 'nondict': 'FIXJUNK', 'none': 'NOSUCH1', 'raise': 'FIXBOOM', 'importerror': 'FIXIMPT'}
+BEHSEL = {'ok': 0, 'nondict': 1, 'none': 2, 'raise': 3, 'importerror': 4, 'raise_empty': 5}
+PROC = {'ok': 'FIX0001', 'nondict': 'FIXJUNK', 'none': 'NOSUCH1', 'raise': 'FIXBOOM', 'importerror': 'FIXIMPT',
+        'raise_empty': 'FIXEMPT'}
 
 
 def model_checks(tier):
@@ -64,7 +65,9 @@ def cases(tier, seed, info):
     rng.shuffle(two)
     # pairs where the second decode is a well-behaved consultation through the same cache: every way
     # the first one can leave the cache behind is followed by every module it could affect
-    focused = [g for g in two if g['items'][0]['cache'] == g['items'][1]['cache'] and g['items'][1]['beh'] == 'ok']
+    focused = [g for g in two if g['items'][0]['cache'] == g['items'][1]['cache'] and g['items'][1]['beh'] == 'ok'
+               and g['items'][0]['mod'] == g['items'][1]['mod'] or
+               (g['items'][0]['cache'] == g['items'][1]['cache'] == 'osrc' and g['items'][1]['beh'] == 'ok')]
     rest = [g for g in two if g not in focused]
     n2, ns = (60, 60) if tier == 'quick' else (len(rest), 4000)
     out = []
@@ -74,8 +77,8 @@ def cases(tier, seed, info):
     info['tlc_histories_len2'] = len(two)
     info['tlc_histories_used'] = len(out)
     m = 25 if tier == 'quick' else 500
-    alphabet = [dict(cache=c, mod=mm, beh=b) for c in ('ud', 'src', 'co', 'osrc') for mm in ('m1', 'm2', 'a1')
-                for b in BEHSEL]
+    alphabet = [dict(cache=c, mod=mm, beh=b, plugins=pl) for c in ('ud', 'src', 'co', 'osrc') for mm in ('m1', 'm2', 'a1')
+                for b in BEHSEL for pl in (True, True, False)]
     for k in range(m):
         items = []
         for _ in range(rng.randint(10, 40 if tier == 'thorough' else 16)):
@@ -84,7 +87,8 @@ def cases(tier, seed, info):
                 items.append(rng.choice(alphabet))
             else:
                 items.append(dict(cache='other', mod=rng.choice(['damaged', 'e500', 'm2c00', 'plain', 'badheader',
-                                                                 'bmcproc', 'lp', 'hidden']), beh='-'))
+                                                                 'bmcproc', 'lp', 'hidden']), beh='-',
+                                  plugins=rng.random() < .7))
         out.append(dict(kind='history', origin='random', seed=seed * 17 + k + 777, items=items))
     info['random_histories'] = m
     for k in range(6 if tier == 'quick' else 120):
@@ -206,7 +210,8 @@ def _history(case):
     steps = []
     for k, it in enumerate(case['items']):
         data, sent = pels[k]
-        res = pelrun.decode(data, True)
+        plug = it.get('plugins', True)
+        res = pelrun.decode(data, plug)
         if res['doc'] is not None:
             dg = project.digest(res['doc'])
             text = json.dumps(res['doc'])
@@ -220,8 +225,9 @@ def _history(case):
         consults = [it]
         if it['cache'] == 'co':
             # the same SRC then consults the SRC parser of that creator (well-behaved for these words)
-            consults = [it, dict(cache='src', mod=it['mod'], beh='ok')]
-        steps.append(dict(item=it, consults=consults, pel=data.hex()[:64] + ':%d' % len(data), digest=dg, fresh=fresh_digest(data),
+            consults = [it, dict(cache='src', mod=it['mod'], beh='ok', plugins=plug)]
+        steps.append(dict(item=dict(it, plugins=plug), consults=[dict(c, plugins=plug) for c in consults],
+                          pel=data.hex()[:64] + ':%d:%s' % (len(data), plug), digest=dg, fresh=fresh_digest(data, plug),
                           caches=cache_projection()[0], caches_ok=cache_projection()[1], foreign=foreign))
     seams.clear_plugin_caches(unload=True)
     return [dict(kind='history', shape_ok=True, origin=case['origin'], steps=steps)]
@@ -235,7 +241,7 @@ def _dir(case):
     os.makedirs(d)
     seams.install_fixture_plugins()
     seams.clear_plugin_caches(unload=True)
-    alphabet = [dict(cache=c, mod=mm, beh=b) for c in ('ud', 'src', 'co', 'osrc') for mm in ('m1', 'm2') for b in BEHSEL]
+    alphabet = [dict(cache=c, mod=mm, beh=b, plugins=True) for c in ('ud', 'src', 'co', 'osrc') for mm in ('m1', 'm2') for b in BEHSEL]
     files = []
     for k in range(case['n']):
         it = rng.choice(alphabet) if k % 2 else dict(cache='other', mod=rng.choice(['e500', 'plain', 'lp']), beh='-')
